@@ -189,7 +189,7 @@ func init() {
 
 func (p *c09) ID() string { return "C09" }
 func (p *c09) Rule() string {
-	return "case = one short run on one shared engine: N in {2,4,8,16} goroutines released by a barrier onto a cold (or pre-warmed) engine, the engine set up either with the LESS node processor or (every third run) without any node processor and with component shorthand tags registered (WithComponents / RegisterComponent), each rendering ~25 programs of the shared catalogue (all features incl. failing programs) plus per-iteration previously unseen expressions and dotted paths, through Vue.Render/RenderFragment on one Vue or New()/Load().Fill().Render/RenderFile/RenderString on one base Template, with private or one shared read-only data value; failpoints at the engine's hook points inject seeded yields/sleeps and rendezvous (two goroutines enter the same cache window together); 'lin' runs add 2 editors rewriting page/component files underneath 6 renderers and record a history checked by porcupine; every call's bytes+error are compared with the call run alone; race-detector reports are collected per worker; non-trivial = run in which >=2 goroutines overlapped; distinct by (run configuration, observed interleaving signature at the cache points)"
+	return "case = one short run on one shared engine: N in {2,4,8,16} goroutines released by a barrier onto a cold (or pre-warmed) engine, the engine set up either with the LESS node processor or (every third run) without any node processor and with component shorthand tags registered (WithComponents / RegisterComponent), each rendering ~25 programs of the shared catalogue (all features incl. failing programs) plus per-iteration previously unseen expressions and dotted paths, requests on an engine without a filesystem that Fill the map all goroutines share and then Assign a value of their own, through Vue.Render/RenderFragment on one Vue or New()/Load().Fill().Render/RenderFile/RenderString on one base Template, with private or one shared read-only data value; failpoints at the engine's hook points inject seeded yields/sleeps and rendezvous (two goroutines enter the same cache window together); 'lin' runs add 2 editors rewriting page/component files underneath 6 renderers and record a history checked by porcupine; every call's bytes+error are compared with the call run alone; race-detector reports are collected per worker; non-trivial = run in which >=2 goroutines overlapped; distinct by (run configuration, observed interleaving signature at the cache points)"
 }
 
 func (p *c09) Plan(ctx core.Ctx) int { return ctx.Pick(320, 3000) }
@@ -278,6 +278,7 @@ func (p *c09) Exec(ctx core.Ctx, cc any) core.Obs {
 	}
 	plans := make([][]*c09Call, c.N)
 	shared := map[string]any{}
+	nofsShared := map[string]any{"title": "shared title", "n": 5}
 	var freshProgs []*Prog
 	for g := 0; g < c.N; g++ {
 		r := core.NewRNG(c.Sched, uint64(g), 77)
@@ -291,6 +292,14 @@ func (p *c09) Exec(ctx core.Ctx, cc any) core.Obs {
 					Data: tvMap(map[string]TV{"n": tvI(5), "title": tvS("t"), "user": tvMap(map[string]TV{"k" + u: tvS("v" + u)}), "deep": tvMap(map[string]TV{"a" + u: tvMap(map[string]TV{"b": tvList(tvI(0), tvMap(map[string]TV{"c": tvS("leaf" + u)}))})})})}
 				freshProgs = append(freshProgs, fp)
 				call = c09Call{prog: fp, fresh: true}
+			} else if k%5 == 2 && c.Shared && c.Mode != "vue" {
+				// engine without a filesystem, Fill with the map all goroutines share, then Assign a value of this request's own
+				u := fmt.Sprintf("%d_%d_%d", c.Run, g, k)
+				np := &Prog{Name: "nofs-assign", Mode: "nofs-assign", Entry: "own-" + u,
+					Str:  fmt.Sprintf(`<p data-a="%s">{{ lk_assigned }}|{{ title }}|{{ n + 1 }}<i v-if="lk_assigned == 'own-%s'">mine</i></p>`, u, u),
+					Data: tvMap(map[string]TV{})}
+				freshProgs = append(freshProgs, np)
+				call = c09Call{prog: np, fresh: true}
 			} else if k%5 == 1 && c.Mode != "vue" {
 				// a string template rendered straight on the shared base template (no New, no Fill)
 				u := fmt.Sprintf("%d_%d_%d", c.Run, g, k)
@@ -325,6 +334,9 @@ func (p *c09) Exec(ctx core.Ctx, cc any) core.Obs {
 					call.v = r.Intn(4)
 				}
 				call.data = call.prog.Variant(call.v)
+			}
+			if call.prog.Mode == "nofs-assign" {
+				call.data = nofsShared
 			}
 			plans[g] = append(plans[g], &call)
 		}
@@ -420,7 +432,11 @@ func (p *c09) Exec(ctx core.Ctx, cc any) core.Obs {
 				if c.StructBase {
 					soloEng.base = soloEng.base.Fill(&c09SiteCfg{SiteName: "site", Build: 7, Flags: []string{"x"}, Inner: &c09SiteCfg{SiteName: "inner"}})
 				}
-				out, err := soloEng.run(call.prog, call.ep, call.prog.Variant(call.v))
+				soloData := call.prog.Variant(call.v)
+				if call.prog.Mode == "nofs-assign" {
+					soloData = map[string]any{"title": "shared title", "n": 5}
+				}
+				out, err := soloEng.run(call.prog, call.ep, soloData)
 				ref = c10Ref{out, errStr(err)}
 				solo[key] = ref
 				o.Evals++
@@ -441,6 +457,9 @@ func (p *c09) Exec(ctx core.Ctx, cc any) core.Obs {
 				o.Fail(c, "crosstalk-bytes/"+cls+"/"+call.ep, "concurrent call returned different bytes than the same call alone (N=%d mode=%s shared=%v)\n%s", c.N, c.Mode, c.Shared, firstDiff(ref.out, call.out))
 			}
 		}
+	}
+	if mustJSONAny(nofsShared) != `{"n":5,"title":"shared title"}` {
+		o.Fail(c, "shared-data-modified/nofs-assign", "the map all goroutines pass to Fill on the engine without a filesystem was modified: %s", clip(mustJSONAny(nofsShared), 300))
 	}
 	// shared data must be unchanged
 	for name, d := range shared {
